@@ -218,8 +218,32 @@ func extractLogLine(p *pkgs, f *facts) {
 	} else {
 		f.miss = append(f.miss, "Client.logStderr")
 	}
-	f.lean = append(f.lean, fmt.Sprintf("def stderrReader : LogLine.ReaderParams := ⟨%s⟩", leanBool(endsOnRead)))
-	f.set("stderrReader", map[string]interface{}{"endsOnlyOnReadError": endsOnRead})
+	// logStderr touches the client only through c.logger, the two wait groups and c.config (no method of *Client, no c.l)
+	readsFromStart := false
+	if ls := p.fn("Client", "logStderr"); ls != nil {
+		readsFromStart = true
+		ast.Inspect(ls.Body, func(n ast.Node) bool {
+			ce, ok := n.(*ast.CallExpr)
+			if !ok {
+				return true
+			}
+			r := exprString(ce.Fun)
+			if strings.HasPrefix(r, "c.") {
+				okPrefix := false
+				for _, pre := range []string{"c.logger.", "c.clientWaitGroup.", "c.pipesWaitGroup.", "c.config."} {
+					if strings.HasPrefix(r, pre) {
+						okPrefix = true
+					}
+				}
+				if !okPrefix {
+					readsFromStart = false
+				}
+			}
+			return true
+		})
+	}
+	f.lean = append(f.lean, fmt.Sprintf("def stderrReader : LogLine.ReaderParams := ⟨%s, %s⟩", leanBool(endsOnRead), leanBool(readsFromStart)))
+	f.set("stderrReader", map[string]interface{}{"endsOnlyOnReadError": endsOnRead, "readsFromStart": readsFromStart})
 	f.lean = append(f.lean, fmt.Sprintf("def logline : LogLine.Params := ⟨%s, %d⟩", leanBool(checked), defBuf))
 	f.lean = append(f.lean, fmt.Sprintf("def drain : Scanner.DrainParams := ⟨%d, %s, %s⟩", maxToken, leanBool(drainsLines), leanBool(drainsAfterErr)))
 	f.set("logline", map[string]interface{}{"checkedAssertions": checked, "defaultBuf": defBuf})
